@@ -236,9 +236,41 @@ theorem intoSeq_map_perm {kvs kvs' : KVs} (hp : kvs'.Perm kvs) : intoSeq (.map k
   simp only [intoSeq]
   rw [sortStrs_perm (hp.flatMap_right entryStrs)]
 
-theorem hostsRender_perm' {m m' : AL (List String)} (hp : m'.Perm m) : hostsRender m' = hostsRender m := by
-  simp only [hostsRender, hostsAsList]
-  exact sortStrs_perm (hp.flatMap_right _)
+theorem hostLe_trans (a b c : String × List String) : hostLe a b = true → hostLe b c = true → hostLe a c = true := by
+  simp only [hostLe, decide_eq_true_eq]; exact String.le_trans
+
+theorem hostLe_total (a b : String × List String) : hostLe a b = true ∨ hostLe b a = true := by
+  simp only [hostLe, decide_eq_true_eq]; exact String.le_total _ _
+
+theorem append_eq_sep_cancel {a b : String} (h : a ++ "=" = b ++ "=") : a = b := by
+  have h1 : (a ++ "=").toList = (b ++ "=").toList := by rw [h]
+  simp only [String.toList_append] at h1
+  exact String.toList_inj.mp (List.append_cancel_right h1)
+
+theorem eq_of_mem_of_fst_eq' {γ : Type} {l : List (String × γ)} (hn : (l.map Prod.fst).Nodup) {a b : String × γ}
+    (ha : a ∈ l) (hb : b ∈ l) (h : a.1 = b.1) : a = b := by
+  induction l with
+  | nil => cases ha
+  | cons x xs ih =>
+    simp only [List.map_cons, List.nodup_cons] at hn
+    rcases List.mem_cons.mp ha with rfl | ha' <;> rcases List.mem_cons.mp hb with rfl | hb'
+    · rfl
+    · exact absurd (h ▸ List.mem_map.mpr ⟨b, hb', rfl⟩) hn.1
+    · exact absurd (h ▸ List.mem_map.mpr ⟨a, ha', rfl⟩) hn.1
+    · exact ih hn.2 ha' hb'
+
+/-- the rendering visits the hosts in sorted order: it does not depend on the iteration order of the map
+(whose keys are distinct) -/
+theorem hostsRender_perm' {m m' : AL (List String)} (hn : (akeys m).Nodup) (hp : m'.Perm m) :
+    hostsRender m' = hostsRender m := by
+  simp only [hostsRender]
+  congr 1
+  apply isort_eq_of_perm hostLe_trans hostLe_total _ hp
+  intro a b ha hb hab hba
+  have hfst : a.1 = b.1 := by
+    simp only [hostLe, decide_eq_true_eq] at hab hba
+    exact append_eq_sep_cancel (String.le_antisymm hab hba)
+  exact eq_of_mem_of_fst_eq' hn ha hb hfst
 
 theorem mappingValues_perm' {m m' : AL String} (hp : m'.Perm m) : mappingValues m' = mappingValues m := by
   simp only [mappingValues]
@@ -493,7 +525,7 @@ open CV CV.Val
 
 /-! ### whole decoders under a permutation of the source mapping -/
 
-theorem hostsCleanup_perm {m m' : AL (List String)} (hp : m'.Perm m) :
+theorem hostsCleanup_perm {m m' : AL (List String)} (hn : (akeys m).Nodup) (hp : m'.Perm m) :
     (hostsCleanup m').map hostsRender = (hostsCleanup m).map hostsRender := by
   simp only [hostsCleanup]
   rw [hp.any_eq]
@@ -501,7 +533,8 @@ theorem hostsCleanup_perm {m m' : AL (List String)} (hp : m'.Perm m) :
   · rfl
   · simp only [Except.map]
     congr 1
-    exact hostsRender_perm' (hp.map _)
+    refine hostsRender_perm' ?_ (hp.map _)
+    simpa [akeys, List.map_map, Function.comp_def] using hn
 
 theorem hostsDecode_map_perm {kvs kvs' : KVs} (hn : (akeys kvs).Nodup) (hp : kvs'.Perm kvs) :
     (hostsDecode (.map kvs')).map hostsRender = (hostsDecode (.map kvs)).map hostsRender := by
@@ -509,7 +542,9 @@ theorem hostsDecode_map_perm {kvs kvs' : KVs} (hn : (akeys kvs).Nodup) (hp : kvs
   rw [hp.any_eq]
   split
   · rfl
-  · exact hostsCleanup_perm (rangeWrite_perm' _ hn hp)
+  · refine hostsCleanup_perm ?_ (rangeWrite_perm' _ hn hp)
+    rw [rangeWrite_eq_map _ _ hn]
+    simpa [akeys, List.map_map, Function.comp_def] using hn
 
 theorem mappingDecode_map_perm {kvs kvs' : KVs} (hn : (akeys kvs).Nodup) (hp : kvs'.Perm kvs) :
     (mappingDecode (.map kvs')).map mappingValues = (mappingDecode (.map kvs)).map mappingValues := by
